@@ -562,7 +562,8 @@ pub fn run_real(env: &RealEnv, w: &World, inv: &RInv) -> ROut {
         let _ = se.read_to_end(&mut b);
         b
     });
-    let deadline = Instant::now() + Duration::from_secs(inv.timeout_s);
+    // (valgrind and sanitizer builds are several times slower)
+    let deadline = Instant::now() + Duration::from_secs(inv.timeout_s * if wants_address_space(env) { 5 } else { 1 });
     let mut timed_out = false;
     let mut sigint_ns: Option<u64> = None;
     let status = loop {
